@@ -27,6 +27,8 @@ run_directed = directed.run
 
 
 def cases(tier, rng):
+    for c in directed.wrapper_above_inheriting_override_cases():
+        yield "directed-wrapper-above-inheriting-override", c
     for c in directed.odd_capture_callables_cases():
         yield "directed-odd-capture-callables", c
     for c in directed.integrator_snapshot_without_postcondition_cases():
